@@ -1,103 +1,95 @@
 """C10 - LP weights: the total covers the sum of users' weights; the weight curve is sane (structural part)."""
 import re
-from rules.common import (opmap, PredTrue, PredFalse, where, flat_atoms, all_origins, exact_origins, ops_of, show, origin_match, data_test)
+from rules.common import (opmap, PredTrue, PredFalse, where, flat_atoms, all_origins, exact_origins, ops_of, show, origin_match, data_test, rel)
 from base import CutPolicy
 from absint import EMPTY, vfield, tagvals, const_of
 
-EXPLANATION = ("static analysis (MIR abstract interpretation): update_weights writes the contract's and the user's snapshot at the same key "
-               "epoch current+1 with the same weight delta, added when filling and saturating-subtracted when closing; every handler "
-               "that changes an open amount calls it with the matching constant and the delta coin / the position's duration; "
-               "reconcile_user_state follows close and emergency exits of open positions; calculate_weight clamps to max(computed, "
-               "amount) and rejects durations outside [1 day, 1 year]")
+EXPLANATION = ("static analysis (MIR abstract interpretation): each position action writes the contract's and the user's weight snapshot at the "
+               "same key epoch current+1 with the same weight delta - computed from the delta coin and the position's duration, clamped with "
+               "max(.., amount) - added when filling and saturating-subtracted from the latest snapshot when closing; a withdrawal touches "
+               "weights and clears the user's cursor/history only for a still-open position; the weight formula rejects durations "
+               "outside [1 day, 1 year] (best effort on the helper)")
 ASSUMPTIONS = ["total >= sum of users under floor rounding / saturating subtraction is a numeric history fact and is not decided", "<= 16x and monotonicity are not decided"]
-TECHNIQUE = "static analysis: twin-write agreement, call pairing with constant arguments, operator-class provenance"
-LEVEL_TEXT = "Structural obligations over all paths of the four position actions, update_weights and calculate_weight."
+TECHNIQUE = "static analysis: twin-write agreement of storage effects, operator-class provenance of the written deltas"
+LEVEL_TEXT = "Structural obligations over all paths of the four position actions; exhaustive over CFG paths."
 LEVEL_NOTE = "Not decided: numeric relation between total and per-user weights; curve shape."
 FM = "farm_manager"
 P = "msg.ManagePosition.action"
-FLOORS = {"AGREE-twin-update": 4, "PAIR-update-weights": 4}
+FLOORS = {"AGREE-twin-update": 8}
 NEXT = {"Query(CurrentEpoch).id": frozenset(["add"]), "Const(1_u64)": frozenset(["add"])}
 
 
 def wh_saves(A):
-    return [e for e in A.writes() if e.extra.get("item") == "LP_WEIGHT_HISTORY" and e.extra.get("sop") == "save" and e.fn.endswith("update_weights")]
+    """weight snapshot writes of a position action: LP_WEIGHT_HISTORY saves keyed at current+1"""
+    return [e for e in A.writes() if e.extra.get("item") == "LP_WEIGHT_HISTORY" and e.extra.get("sop") == "save"
+            and opmap(vfield(e.extra.get("key", EMPTY), "2")) == NEXT]
 
 
 def run(W, chk):
     spec = {
-        ("ManagePosition", ".action", "Create"): ("true", {"info.funds[*]"}, {P + ".Create.unlocking_duration"}, {"info.sender", P + ".Create.receiver"}),
-        ("ManagePosition", ".action", "Expand"): ("true", {"info.funds[*]"}, {"Store(POSITIONS).unlocking_duration"}, {"Store(POSITIONS).receiver"}),
-        ("ManagePosition", ".action", "Close"): ("false", None, {"Store(POSITIONS).unlocking_duration"}, {"info.sender"}),
-        ("ManagePosition", ".action", "Withdraw"): ("false", {"Store(POSITIONS).lp_asset"}, {"Store(POSITIONS).unlocking_duration"}, {"info.sender"}),
+        # variant: (fills?, delta amount origins, duration origin, user address origins, denom origin)
+        ("ManagePosition", ".action", "Create"): (True, {"info.funds[*].amount"}, P + ".Create.unlocking_duration", {"info.sender", P + ".Create.receiver"}, {"info.funds[*].denom"}),
+        ("ManagePosition", ".action", "Expand"): (True, {"info.funds[*].amount"}, "Store(POSITIONS).unlocking_duration", {"Store(POSITIONS).receiver"}, {"info.funds[*].denom"}),
+        ("ManagePosition", ".action", "Close"): (False, {"Store(POSITIONS).lp_asset.amount", P + ".Close.lp_asset.amount"}, "Store(POSITIONS).unlocking_duration", {"info.sender"},
+                                                 {"Store(POSITIONS).lp_asset.denom"}),
+        ("ManagePosition", ".action", "Withdraw"): (False, {"Store(POSITIONS).lp_asset.amount"}, "Store(POSITIONS).unlocking_duration", {"info.sender"},
+                                                    {"Store(POSITIONS).lp_asset.denom"}),
     }
-    for vp, (fill, coin, dur, recv) in sorted(spec.items()):
+    for vp, (fill, amt, dur, user, den) in sorted(spec.items()):
         A = W.run(FM, "execute", vp)
         lab = vp[-1]
-        uw = A.calls_id(r"position::commands::update_weights$")
-        chk.expect(len(uw) == 1, "PAIR-update-weights", lab, "update_weights is called", "%d update_weights calls in %s" % (len(uw), lab), A.entry)
-        for e in uw:
-            da = e.extra["dargs"]
-            okc = True
-            if coin is not None:
-                okc = exact_origins(da[3]) == coin and not ops_of(da[3])
-            else:
-                am = all_origins(vfield(da[3], "amount"))
-                okc = am == {"Store(POSITIONS).lp_asset.amount", P + ".Close.lp_asset.amount"} and \
-                    all_origins(vfield(da[3], "denom")) == {"Store(POSITIONS).lp_asset.denom"}
-            ok = const_of(da[5]) == fill and okc and exact_origins(da[4]) == dur and all_origins(da[2]) == recv
-            chk.expect(ok, "PAIR-update-weights", lab + ".args", "update_weights(receiver, delta coin, duration, fill=%s)" % fill,
-                       "update_weights is called with receiver=%s coin=%s duration=%s fill=%s" % (
-                           sorted(all_origins(da[2])), show(da[3])[:160], sorted(all_origins(da[4])), show(da[5])), where(e))
         ws = wh_saves(A)
-        chk.expect(len(ws) == 2, "AGREE-twin-update", lab, "two snapshot writes (contract, user)", "%d snapshot writes in update_weights" % len(ws), A.entry)
-        if len(ws) == 2:
-            k = [e.extra.get("key", EMPTY) for e in ws]
-            addr = [exact_origins(vfield(x, "0")) for x in k]
-            ep = [opmap(vfield(x, "2")) for x in k]
-            den = [all_origins(vfield(x, "1")) for x in k]
-            okk = ep[0] == NEXT and ep[1] == NEXT and den[0] == den[1] and {"env.contract.address"} in addr and recv in [all_origins(vfield(x, "0")) for x in k]
-            chk.expect(okk, "AGREE-twin-update", lab + ".keys", "contract and user snapshots at (addr, same denom, current+1)",
-                       "snapshot keys: %s / %s epochs %s" % (sorted(addr[0]), sorted(addr[1]), [{a: sorted(b) for a, b in x.items()} for x in ep]), where(ws[0]))
-            vm = []
-            for e in ws:
-                m = {}
-                for (o, ops) in flat_atoms(e.extra.get("value", EMPTY)):
-                    if "key" in ops:
-                        continue
-                    m.setdefault(o, set()).update(ops)
-                vm.append(m)
-            base = [m.get("Store(LP_WEIGHT_HISTORY)") for m in vm]
-            want = {"add"} if fill == "true" else {"sat", "sub", "sub:l"}
-            delta = [{o: frozenset(x) for o, x in m.items() if o not in ("Store(LP_WEIGHT_HISTORY)", "Const(0)")} for m in vm]
-            okv = base[0] == want and base[1] == want and delta[0] == delta[1] and bool(delta[0])
-            chk.expect(okv, "AGREE-twin-update", lab + ".values", "both snapshots = latest %s the same weight" % ("+" if fill == "true" else "-sat"),
-                       "snapshot values differ / wrong direction: latest ops %s, deltas equal %s" % ([sorted(b or []) for b in base], delta[0] == delta[1]), where(ws[0]))
-    # withdraw: weights only touched for an open position; reconcile after
+        chk.expect(len(ws) == 2, "AGREE-twin-update", lab, "two snapshot writes at current+1 (contract, user)", "%d snapshot writes at current+1" % len(ws), A.entry)
+        if len(ws) != 2:
+            continue
+        k = [e.extra.get("key", EMPTY) for e in ws]
+        addr = [all_origins(vfield(x, "0")) for x in k]
+        dens = [all_origins(vfield(x, "1")) for x in k]
+        okk = {"env.contract.address"} in addr and user in addr and dens[0] == dens[1] == den
+        chk.expect(okk, "AGREE-twin-update", lab + ".keys", "snapshots at (contract | position owner, position's LP denom, current+1)",
+                   "snapshot keys: addresses %s / %s denoms %s / %s" % (sorted(addr[0]), sorted(addr[1]), sorted(dens[0]), sorted(dens[1])), where(ws[0]))
+        vm = [opmap(e.extra.get("value", EMPTY), lambda o, ops: "key" not in ops) for e in ws]
+        base = [m.get("Store(LP_WEIGHT_HISTORY)") for m in vm]
+        want = frozenset(["add"]) if fill else frozenset(["sat", "sub", "sub:l"])
+        delta = [{o: x for o, x in m.items() if o != "Store(LP_WEIGHT_HISTORY)" and not o.startswith("Const(")} for m in vm]
+        okv = base[0] == want and base[1] == want and delta[0] == delta[1] and bool(delta[0])
+        chk.expect(okv, "AGREE-twin-update", lab + ".values", "both snapshots = latest %s the same weight delta" % ("+" if fill else "saturating-minus"),
+                   "snapshot values differ / wrong direction: latest ops %s, deltas equal %s" % ([sorted(b or []) for b in base], delta[0] == delta[1]), where(ws[0]))
+        d0 = delta[0]
+        src_ok = set(d0) == amt | {dur} and all("max" in d0[o] for o in amt) and not any("div_ceil" in x for x in d0.values())
+        chk.expect(src_ok, "PROV-weight-delta", lab, "delta = weight(delta coin, position duration) clamped with max(.., amount)",
+                   "weight delta derives from %s" % {o: sorted(x & {"max", "min", "div_ceil"}) for o, x in d0.items()}, where(ws[0]))
+    # withdraw: weights / cursor only touched for an open position
     op = PredTrue("position.open", data_test(r"^Store\(POSITIONS\)\.open$"))
     pol = CutPolicy([op])
     B = W.run(FM, "execute", ("ManagePosition", ".action", "Withdraw"), pol)
-    chk.expect(bool(pol.hits) and not B.calls_id(r"update_weights$") and not B.calls_id(r"reconcile_user_state$"), "CUT-withdraw-open-only", "Withdraw",
-               "update_weights / reconcile_user_state only for a still-open position", "closed positions are re-subtracted on withdrawal", B.entry)
+    touched = [e for e in B.writes() if e.extra.get("item") in ("LP_WEIGHT_HISTORY", "LAST_CLAIMED_EPOCH")]
+    chk.expect(bool(pol.hits) and not touched, "CUT-withdraw-open-only", "Withdraw",
+               "weights are subtracted and the user's cursor/history reconciled only for a still-open position",
+               "withdrawing a closed position touches weights again (found guard %s): %s" % (bool(pol.hits), [e.extra.get("item") for e in touched][:4]),
+               where(touched[0]) if touched else B.entry)
     for vp in (("ManagePosition", ".action", "Close"), ("ManagePosition", ".action", "Withdraw")):
         A = W.run(FM, "execute", vp)
-        rc = A.calls_id(r"position::helpers::reconcile_user_state$")
-        chk.expect(len(rc) == 1, "PAIR-reconcile", vp[-1], "reconcile_user_state is called", "%d reconcile_user_state calls" % len(rc), A.entry)
-    # calculate_weight
-    H = W.run_fn("farm_manager::position::helpers::calculate_weight")
-    r = H.ret if H.ret is not None else EMPTY
-    m = {}
-    for (o, ops) in flat_atoms(r):
-        m.setdefault(o, set()).update(ops)
-    chk.expect("lp_asset.amount" in m and all("max" in ops for o, ops in m.items() if not o.startswith("Const(")), "PROV-weight-clamp", "calculate_weight", "weight = max(computed, amount)",
-               "weight is not clamped with max(.., amount): %s" % {k: sorted(v) for k, v in list(m.items())[:5]}, H.entry)
-    chk.expect("unlocking_duration" in m and "div_ceil" not in set().union(*m.values()), "PROV-weight-clamp", "inputs", "depends on amount and duration, round-down",
-               "weight inputs %s" % sorted(m), H.entry)
+        rc = [e for e in A.writes() if e.extra.get("item") == "LAST_CLAIMED_EPOCH" and e.extra.get("sop") == "remove" and exact_origins(e.extra.get("key", EMPTY)) == {"info.sender"}]
+        rh = [e for e in A.writes() if e.extra.get("item") == "LP_WEIGHT_HISTORY" and e.extra.get("sop") == "remove"]
+        chk.expect(len(rc) == 1 and len(rh) >= 1, "PAIR-reconcile", vp[-1], "the user's claim cursor and weight history are reconciled after the exit",
+                   "reconciliation effects: cursor removals %d, history removals %d" % (len(rc), len(rh)), A.entry)
+    # best effort: the weight helper on its own
+    fid = "farm_manager::position::helpers::calculate_weight"
+    if not W.has_fn(fid):
+        chk.skip("CUT-duration-range", "calculate_weight", "helper not found under this name")
+        return
+    H = W.run_fn(fid)
     rng = PredTrue("duration in [DAY, YEAR]", lambda pn, pa: pn == "contains" and origin_match(pa[1], r"^unlocking_duration$"))
     pol = CutPolicy([rng])
-    H2 = W.run_fn("farm_manager::position::helpers::calculate_weight", policy=pol)
+    H2 = W.run_fn(fid, policy=pol)
     tv = tagvals(H2.ret, "#v:std::result::Result") if H2.ret is not None else {"Err"}
-    chk.expect(bool(pol.hits) and tv == {"Err"}, "CUT-duration-range", "calculate_weight", "durations outside the range are rejected before the formula",
-               "calculate_weight can succeed outside the duration range (guard found %s, variants %s)" % (bool(pol.hits), tv), H.entry)
-    lo = W.F.const_literal("farm_manager::position::helpers::SECONDS_IN_DAY")
-    hi = W.F.const_literal("farm_manager::position::helpers::SECONDS_IN_YEAR")
-    chk.expect(lo == "86400_u64" and hi == "31556926_u64", "CONST-duration-range", "DAY/YEAR", "86400 .. 31556926", "range constants %s .. %s" % (lo, hi), "")
+    if pol.hits:
+        chk.expect(tv == {"Err"}, "CUT-duration-range", "calculate_weight", "durations outside the range are rejected before the formula",
+                   "calculate_weight can succeed outside the duration range (variants %s)" % tv, H.entry)
+        lo = W.F.const_literal("farm_manager::position::helpers::SECONDS_IN_DAY")
+        hi = W.F.const_literal("farm_manager::position::helpers::SECONDS_IN_YEAR")
+        if lo is not None and hi is not None:
+            chk.expect(lo == "86400_u64" and hi == "31556926_u64", "CONST-duration-range", "DAY/YEAR", "86400 .. 31556926", "range constants %s .. %s" % (lo, hi), "")
+    else:
+        chk.skip("CUT-duration-range", "calculate_weight", "range check is not written as RangeInclusive::contains")
